@@ -1441,11 +1441,13 @@ def stream_settrace(ctx, r):
             "search": ["", "?", "a=b", "?a b", "??", "'", "\u00e9=\U0001f4a9", "x\ny", "#", "a#b", "\"<>'"],
             "port": ["", "0", "80", "443", "21", "8080", "65535", "65536", "000080", "0000000000000000443", "81x", "x", "8 1", "\t8\n1", "99999", "1" * 20],
             "username": ["", "u", "a b", "u:p", "@/:;=", "\u00e9", "%41", "a\tb"],
-            "password": ["", "p", "a b", ":", "@/:;=", "\u00fc", "%zz", "p\nq"]}
+            "password": ["", "p", "a b", ":", "@/:;=", "\u00fc", "%zz", "p\nq"],
+            "host": ["h", "example.org", "EXAMPLE.org", "1.2.3.4", "0x7f.1", "[::1]", "b\u00fccher.de", "a b", "a%2Fb", "h/x", "h?q", "x\ty", "xn--", "256.0.0.1", "%41"],
+            "hostname": ["h2", "example.com", "127.1", "[1::2]", "\u4f8b.jp", "a<b", "h#f", "loc%61lhost", "a..b"]}
     lines = []
     for u in urls:
         for _ in range(2):
-            w = r.choice(["hash", "search", "port", "username", "password"])
+            w = r.choice(["hash", "search", "port", "username", "password", "host", "hostname"])
             lines.append("settrace %s %s %s" % (w, tok(u, "b", "s"), tok(r.choice(vals[w]), "b", "s")))
     for u in SER_URLS:
         for w in vals:
